@@ -200,7 +200,26 @@ def gen_cases(tier, seed):
     cases += by_name_cases(tier, rng)
     cases += option_battery_cases(tier, rng)
     cases += menu_cases(tier, rng)
+    cases += macro_cases(tier, rng)
     return cases
+
+
+def macro_cases(tier, rng):
+    """L: words over the keyboard macro commands (start, end, call, print; Vi: record into / run from registers) and a few
+    editing keys: nested starts, calls while recording, calls of empty or missing macros, macros calling macros"""
+    E = [b"\x18(", b"\x18(", b"\x18)", b"\x18)", b"\x18e", b"\x18e", b"a", b"\x1bb", b"\x0b", b"\x1b2", b"\x0f", b"\x19", b"\x1f"]
+    V = [b"qa", b"qb", b"q", b"q", b"@a", b"@b", b"@@", b'@"', b"x", b"ia\x1b", b"2", b"u", b"dw", b"."]
+    out = []
+    for i in range(30 if tier == "quick" else 400):
+        mode = "emacs" if i % 2 == 0 else "vi"
+        c = {"id": "c01mac-%d" % i, "inputrc": ("set editing-mode vi\n" if mode == "vi" else "") + '"\\C-o": "xy "\n' + case_options(rng, i),
+             "w": rng.choice([80, 40, 20]), "h": 24, "prompt": "> ", "setups": [], "sessions": [], "hangms": 10000}
+        for _ in range(25):
+            b = rng.choice(["", "foo bar", "a b c d"])
+            c["setups"].append(setup(b, rng.randint(0, len(b)), "emacs" if mode == "emacs" else "vi-command"))
+            c["sessions"].append([SETUP_KEY] + [keys(rng.choice(E if mode == "emacs" else V)) for _ in range(rng.randint(3, 9))])
+        out.append(c)
+    return out
 
 
 MENU_COMPS = [
